@@ -108,3 +108,188 @@ theorem refSubfield_stop (stale : Nat) (r : Reference) (more : Bytes) (stk : Lis
   exact refAlts_allfail stale r refAltList more more stk hX hall
 
 end Gts.GenBank
+
+namespace Gts.GenBank
+open Gts.Pars
+
+/-! ### a sub-field line is taken by its alternative -/
+
+theorem refAlts_reach (stale : Nat) (r : Reference)
+    (pre : List (String × (Reference → Bytes → Reference))) (x : String × (Reference → Bytes → Reference))
+    (post : List (String × (Reference → Bytes → Reference))) (a b : Nat) (v more fr : Bytes) (stk : List Bytes)
+    (ha : 0 < a) (hb : 0 < b) (hab : a + (bs x.1).length + b = 12)
+    (hn : ∀ X c, (bs x.1 ++ X).head? = some c → c ≠ 32)
+    (hv : subValueOk v = true) (hmore : (sp 12).isPrefixOf more = false)
+    (hpre : ∀ y ∈ pre, ∀ Z, (bs y.1).isPrefixOf (bs x.1 ++ Z) = false) :
+    refAlts 12 stale r (pre ++ x :: post)
+        ⟨sp a ++ (bs x.1 ++ (sp b ++ (addPrefix (sp 12) v ++ 10 :: more))), fr :: stk⟩ =
+      (.ok (x.2 r v, v.length), ⟨more, stk⟩) := by
+  induction pre with
+  | nil =>
+    exact refAlts_hit stale r x post _ fr more v stk (refSub_ok x.1 a b v more _ stale ha hb hab hn hv hmore)
+  | cons y pre ih =>
+    rw [List.cons_append, refAlts_skip stale r y _ _ fr stk
+      (refSub_other y.1 a _ _ stale ha (hn _) (hpre y (by simp) _))]
+    exact ih (fun z hz => hpre z (by simp [hz]))
+
+/-- the six sub-fields: index into `refAltList`, blanks in front of and behind the name -/
+structure SubLine where
+  idx : Fin 6
+  v : Bytes
+
+def refNames : List String := ["AUTHORS", "CONSRTM", "TITLE", "JOURNAL", "PUBMED", "REMARK"]
+
+def slotA (i : Fin 6) : Nat := if i.1 = 4 then 3 else 2
+def slotB (i : Fin 6) : Nat := match i.1 with | 2 => 5 | 5 => 4 | _ => 3
+def slotName (i : Fin 6) : String := refNames.getD i.1 ""
+def slotSet (i : Fin 6) : Reference → Bytes → Reference := (refAltList.getD i.1 ("", fun r _ => r)).2
+
+/-- the line(s) of one sub-field as they stand in the file -/
+def subLineText (l : SubLine) : Bytes :=
+  sp (slotA l.idx) ++ (bs (slotName l.idx) ++ (sp (slotB l.idx) ++ (addPrefix (sp 12) l.v ++ [10])))
+
+/-- two byte strings differ in their first or second byte -/
+def differ : Bytes → Bytes → Bool
+  | c :: d :: _, c' :: d' :: _ => c != c' || d != d'
+  | _, _ => false
+
+theorem slot_table : ∀ i : Fin 6,
+    (0 < slotA i ∧ 0 < slotB i ∧ slotA i + (bs (slotName i)).length + slotB i = 12 ∧
+      (bs (slotName i)).head? ≠ some 32 ∧ (bs (slotName i)).head? ≠ none) ∧
+    ∀ j : Fin 6, j.1 < i.1 → differ (bs (slotName j)) (bs (slotName i)) = true := by
+  decide
+
+theorem slot_split (i : Fin 6) :
+    refAltList = refAltList.take i.1 ++ (slotName i, slotSet i) :: refAltList.drop (i.1 + 1) ∧
+    ∀ y ∈ refAltList.take i.1, ∃ j : Fin 6, j.1 < i.1 ∧ y.1 = slotName j := by
+  obtain ⟨n, hn⟩ := i
+  have : n = 0 ∨ n = 1 ∨ n = 2 ∨ n = 3 ∨ n = 4 ∨ n = 5 := by omega
+  rcases this with rfl | rfl | rfl | rfl | rfl | rfl
+  · exact ⟨rfl, by simp⟩
+  · refine ⟨rfl, ?_⟩
+    intro y hy; simp [refAltList] at hy; subst hy; exact ⟨⟨0, by omega⟩, by simp, rfl⟩
+  · refine ⟨rfl, ?_⟩
+    intro y hy; simp [refAltList] at hy
+    rcases hy with rfl | rfl
+    · exact ⟨⟨0, by omega⟩, by simp, rfl⟩
+    · exact ⟨⟨1, by omega⟩, by simp, rfl⟩
+  · refine ⟨rfl, ?_⟩
+    intro y hy; simp [refAltList] at hy
+    rcases hy with rfl | rfl | rfl
+    · exact ⟨⟨0, by omega⟩, by simp, rfl⟩
+    · exact ⟨⟨1, by omega⟩, by simp, rfl⟩
+    · exact ⟨⟨2, by omega⟩, by simp, rfl⟩
+  · refine ⟨rfl, ?_⟩
+    intro y hy; simp [refAltList] at hy
+    rcases hy with rfl | rfl | rfl | rfl
+    · exact ⟨⟨0, by omega⟩, by simp, rfl⟩
+    · exact ⟨⟨1, by omega⟩, by simp, rfl⟩
+    · exact ⟨⟨2, by omega⟩, by simp, rfl⟩
+    · exact ⟨⟨3, by omega⟩, by simp, rfl⟩
+  · refine ⟨rfl, ?_⟩
+    intro y hy; simp [refAltList] at hy
+    rcases hy with rfl | rfl | rfl | rfl | rfl
+    · exact ⟨⟨0, by omega⟩, by simp, rfl⟩
+    · exact ⟨⟨1, by omega⟩, by simp, rfl⟩
+    · exact ⟨⟨2, by omega⟩, by simp, rfl⟩
+    · exact ⟨⟨3, by omega⟩, by simp, rfl⟩
+    · exact ⟨⟨4, by omega⟩, by simp, rfl⟩
+
+theorem prefix_mismatch (p q : Bytes) (Z : Bytes) (h : differ p q = true) : p.isPrefixOf (q ++ Z) = false := by
+  match p, q, h with
+  | c :: d :: t, c' :: d' :: t', h =>
+    simp only [differ, Bool.or_eq_true, bne_iff_ne, ne_eq] at h
+    rcases h with h | h
+    · have : (c == c') = false := by simpa using h
+      simp [List.isPrefixOf, this]
+    · have : (d == d') = false := by simpa using h
+      simp [List.isPrefixOf, this]
+
+/-- `genbankReferenceSubfieldParser` on the line(s) of one sub-field -/
+theorem refSubfield_line (l : SubLine) (stale : Nat) (r : Reference) (more : Bytes) (stk : List Bytes)
+    (hv : subValueOk l.v = true) (hmore : (sp 12).isPrefixOf more = false) :
+    refSubfield 12 stale r ⟨subLineText l ++ more, stk⟩ = (.ok (slotSet l.idx r l.v, l.v.length), ⟨more, stk⟩) := by
+  obtain ⟨⟨ha, hb, hab, h32, hnone⟩, hdiff⟩ := slot_table l.idx
+  obtain ⟨hlist, hpre⟩ := slot_split l.idx
+  have e : subLineText l ++ more =
+      sp (slotA l.idx) ++ (bs (slotName l.idx) ++ (sp (slotB l.idx) ++ (addPrefix (sp 12) l.v ++ 10 :: more))) := by
+    simp [subLineText, List.append_assoc]
+  rw [e]
+  simp only [refSubfield, P.bind_run, push, getS, setS]
+  rw [hlist]
+  exact refAlts_reach stale r _ (slotName l.idx, slotSet l.idx) _ _ _ l.v more _ stk ha hb hab
+    (by
+      intro X x hx
+      cases hb' : bs (slotName l.idx) with
+      | nil => rw [hb'] at hnone; exact absurd rfl hnone
+      | cons c t =>
+        rw [hb'] at hx h32
+        simp at hx h32; subst hx; exact h32) hv hmore
+    (fun y hy Z => by
+      obtain ⟨j, hj, hy1⟩ := hpre y hy
+      rw [hy1]
+      exact prefix_mismatch _ _ Z (hdiff j hj))
+
+/-! ### the loop -/
+
+def subLinesText (ls : List SubLine) : Bytes := ls.flatMap subLineText
+
+theorem subLineText_not_indent (l : SubLine) (X : Bytes) : (sp 12).isPrefixOf (subLineText l ++ X) = false := by
+  obtain ⟨⟨ha, hb, hab, h32, hnone⟩, _⟩ := slot_table l.idx
+  have hA : slotA l.idx ≤ 3 := by unfold slotA; split <;> omega
+  obtain ⟨c, t, hc, hc32⟩ : ∃ c t, bs (slotName l.idx) = c :: t ∧ c ≠ 32 := by
+    cases hb' : bs (slotName l.idx) with
+    | nil => rw [hb'] at hnone; exact absurd rfl hnone
+    | cons c t => rw [hb'] at h32; exact ⟨c, t, rfl, by simpa using h32⟩
+  have e : subLineText l ++ X = sp (slotA l.idx) ++ (c :: (t ++ (sp (slotB l.idx) ++ (addPrefix (sp 12) l.v ++ 10 :: X)))) := by
+    simp [subLineText, hc, List.append_assoc]
+  rw [e]
+  -- fewer than 12 blanks, then a non-blank
+  generalize slotA l.idx = a at hA
+  have : ∀ (a n : Nat) (Y : Bytes), a < n → (sp n).isPrefixOf (sp a ++ c :: Y) = false := by
+    intro a
+    induction a with
+    | zero => intro n Y hn; exact sp_prefix_cons n c Y hc32 hn
+    | succ a ih =>
+      intro n Y hn
+      obtain ⟨n', rfl⟩ : ∃ n', n = n' + 1 := ⟨n - 1, by omega⟩
+      rw [sp_succ, sp_succ]
+      simp only [List.cons_append, List.isPrefixOf, beq_self_eq_true, Bool.true_and]
+      exact ih n' Y (by omega)
+  exact this a 12 _ (by omega)
+
+theorem refSubfields_lines (ls : List SubLine) (more : Bytes) (stk : List Bytes) (stale : Nat) (r : Reference)
+    (k : Nat) (hv : ∀ l ∈ ls, subValueOk l.v = true) (hstop : refStop more = true) (hk : ls.length < k) :
+    refSubfields 12 k stale r ⟨subLinesText ls ++ more, stk⟩ =
+      (.ok (ls.foldl (fun r l => slotSet l.idx r l.v) r), ⟨more, stk⟩) := by
+  induction ls generalizing stale r k with
+  | nil =>
+    cases k with
+    | zero => omega
+    | succ k => gsimp [refSubfields, subLinesText, refSubfield_stop stale r more stk hstop]
+  | cons l ls ih =>
+    cases k with
+    | zero => omega
+    | succ k =>
+      have hmore : (sp 12).isPrefixOf (subLinesText ls ++ more) = false := by
+        cases ls with
+        | nil =>
+          simp only [subLinesText, List.flatMap_nil, List.nil_append]
+          simp only [refStop, Bool.and_eq_true, bne_iff_ne, ne_eq] at hstop
+          cases more with
+          | nil => rfl
+          | cons c m =>
+            have : c ≠ 32 := by simpa using hstop.1
+            exact sp_prefix_cons 12 c m this (by omega)
+        | cons l' ls' =>
+          simp only [subLinesText, List.flatMap_cons, List.append_assoc]
+          exact subLineText_not_indent l' _
+      have e : subLinesText (l :: ls) ++ more = subLineText l ++ (subLinesText ls ++ more) := by
+        simp [subLinesText, List.flatMap_cons, List.append_assoc]
+      rw [e]
+      simp only [refSubfields, P.bind_run, attempt_run,
+        refSubfield_line l stale r _ stk (hv l (by simp)) hmore]
+      rw [ih _ _ k (fun x hx => hv x (by simp [hx])) (by simp only [List.length_cons] at hk; omega)]
+      simp
+
+end Gts.GenBank
